@@ -566,7 +566,7 @@ Section SameOptions.
                                 (FileInfo p k sf pa sec lon so files dir c kp) k0 base ws0) as [o1|e];
           cbn [bind]; [|reflexivity].
         destruct (reference_partial cfg); [reflexivity|].
-        destruct (lookup k0 (sections_subgroups seg)) as [others|]; [|reflexivity].
+        destruct (lookup k0 (subgroups_for seg _)) as [others|]; [|reflexivity].
         rewrite (fold_out_ext _ (fun other ws1 =>
                    emit_sff rt2 sty cfg seg sections (FileInfo p k sf pa sec lon so files dir c kp)
                             n (section :: stack) other base ws1)); [reflexivity|].
